@@ -37,7 +37,7 @@ def run_check(ctx):
                        "machine model: DESIGN.md section 4; C-undefined executions discarded"]
     n, ns = (16000, 8) if ctx.tier == "thorough" else (640, 6)
     progcheck.run_gen(ctx, "C05", FEATURES, n, ns, depth=2, nest=3, lo=2, hi=5,
-                      nontrivial=_nontrivial, classify=_classify)
+                      nontrivial=_nontrivial, classify=_classify, native_all=(ctx.tier == "thorough"))
     for c in ("class:if", "class:for", "class:if-else", "class:compound-assign", "class:nested-for"):
         if ctx.classes.get(c, 0) == 0:
             raise run.HarnessError(f"generator produced no program of {c}")
